@@ -27,6 +27,8 @@ type scriptIn struct {
 	Burst bool `json:"burst"`
 	// By: a bystander lease of the same deployment is deployed before the script starts
 	By bool `json:"by"`
+	// Hosts: hostname dimension of the manifest contents: "" / "same" | "move" | "drop" (see hostsOf)
+	Hosts string `json:"hosts"`
 }
 
 type scriptResult struct {
@@ -48,7 +50,7 @@ func contains(xs []string, x string) bool {
 // runScript replays one stimulus script under the forced schedule: the next stimulus is applied only when the
 // implementation has nothing left to do for the previous one (every wait is on a hook event).
 func runScript(sc scriptIn) scriptResult {
-	w, err := newWorld(worldOpts{forced: true, hnFail: strings.Contains(strings.Join(sc.Stim, " "), "hfail"), preexisting: sc.Pre, bystander: sc.By, dseq: uint64(1000 + sc.ID)})
+	w, err := newWorld(worldOpts{forced: true, hnFail: strings.Contains(strings.Join(sc.Stim, " "), "hfail"), preexisting: sc.Pre, bystander: sc.By, hosts: sc.Hosts, dseq: uint64(1000 + sc.ID)})
 	if err != nil {
 		if w != nil {
 			w.close()
@@ -181,6 +183,7 @@ func runFree(id int, seed int64) scriptResult {
 	o := worldOpts{
 		forced:      false,
 		dseq:        uint64(1000 + id),
+		hosts:       []string{"same", "move", "drop"}[rng.Intn(3)],
 		seed:        seed ^ 0x5eed,
 		hnFail:      rng.Intn(8) == 0,
 		preexisting: rng.Intn(5) == 0,
@@ -224,9 +227,10 @@ func runFree(id int, seed int64) scriptResult {
 	for i := range contents {
 		contents[i] = 1 + rng.Intn(3)
 	}
+	contents[0] = 1 // the lease's first manifest (the one whose hostnames are reserved) is content 1, see hostsOf
 	var descr []string
-	descr = append(descr, fmt.Sprintf("free contents=%v seed=%d nm=%d closeAt=%d shutAt=%d hnFail=%v pre=%v derr=%.2f terr=%.2f delay=%dus",
-		contents, seed, nm, closeAt, shutAt, o.hnFail, o.preexisting, o.plan.deployErrP, o.plan.tdErrP, o.plan.maxDelayUs))
+	descr = append(descr, fmt.Sprintf("free hosts=%s contents=%v seed=%d nm=%d closeAt=%d shutAt=%d hnFail=%v pre=%v derr=%.2f terr=%.2f delay=%dus",
+		o.hosts, contents, seed, nm, closeAt, shutAt, o.hnFail, o.preexisting, o.plan.deployErrP, o.plan.tdErrP, o.plan.maxDelayUs))
 	var wg sync.WaitGroup
 	tick := make([]chan struct{}, nm+2)
 	for i := range tick {
